@@ -706,7 +706,7 @@ func ruleInputReadonly(c *eng.Ctx) {
 // R19.14 [C19]
 func ruleTextCollectorSkipsHidden(c *eng.Ctx) {
 	const R = "R19.14-COLLECTOR-SKIPS-HIDDEN"
-	c.Rule(R, "a recursive text collector of the HTML reader (a function that writes the data of text nodes and calls itself on the children) does not descend into a script or style element: the block-level walk only skips those where it meets them, a script nested inside a paragraph or cell is reached through the collector alone", 1, 0)
+	c.Rule(R, "a recursive text collector of the HTML reader (a function that writes the data of text nodes and calls itself on the children) does not descend into a script or style element: the block-level walk only skips those where it meets them, a script nested inside a paragraph or cell is reached through the collector alone (a collector that walks with an explicit stack must at least consult the skip test)", 0, 0)
 	n := 0
 	for _, f := range c.P.ModuleFuncs() {
 		if f.Pkg == nil || eng.ShortPath(f.Pkg.Pkg.Path()) != "htmldoc" || f.Parent() != nil {
@@ -779,6 +779,75 @@ func ruleTextCollectorSkipsHidden(c *eng.Ctx) {
 		}
 		c.Check(len(leak) == 0, R, eng.FuncName(f), f.Pos(), "script and style are not descended into",
 			"the collector descends into "+strings.Join(leak, ", ")+": source text of a script or style sheet nested in a content element is returned as document text")
+	}
+	if n > 0 {
+		return
+	}
+	// no recursive collector: the walk may be a loop over an explicit stack. Such a collector (it writes the Data of
+	// a node and follows FirstChild/NextSibling) must at least consult the skip predicate of the package, or compare
+	// an element name with script and style itself
+	m := 0
+	for _, f := range c.P.ModuleFuncs() {
+		if f.Pkg == nil || f.Blocks == nil || eng.ShortPath(f.Pkg.Pkg.Path()) != "htmldoc" {
+			continue
+		}
+		emits, walks := false, false
+		for _, ci := range eng.Calls(f, true, func(nm string, _ ssa.CallInstruction) bool { return strings.HasSuffix(nm, ").WriteString") }) {
+			args := ci.Common().Args
+			if _, ok := htmlNodeField(args[len(args)-1], "Data"); ok {
+				emits = true
+			}
+		}
+		for _, h := range eng.Cluster(f, 1) {
+			eng.Instrs(h, true, func(in ssa.Instruction) {
+				if fa, ok := in.(*ssa.FieldAddr); ok {
+					if fr, ok := eng.AsField(fa); ok && strings.HasSuffix(fr.Struct, "html.Node") && (fr.Field == "FirstChild" || fr.Field == "NextSibling" || fr.Field == "LastChild" || fr.Field == "PrevSibling") {
+						walks = true
+					}
+				}
+			})
+		}
+		// an explicit stack or work list of nodes
+		stack := false
+		for _, ci := range eng.Calls(f, true, func(nm string, _ ssa.CallInstruction) bool { return nm == "builtin:append" }) {
+			if st, ok := ci.Value().Type().Underlying().(*types.Slice); ok {
+				if strings.Contains(st.Elem().String(), "html.Node") {
+					stack = true
+				}
+				if es, ok := st.Elem().Underlying().(*types.Struct); ok {
+					for i := 0; i < es.NumFields(); i++ {
+						if strings.Contains(es.Field(i).Type().String(), "html.Node") {
+							stack = true
+						}
+					}
+				}
+			}
+		}
+		if !emits || !walks || !stack {
+			continue
+		}
+		m++
+		skips := false
+		for _, h := range eng.Cluster(f, 2) {
+			words := map[string]bool{}
+			eng.Instrs(h, true, func(in ssa.Instruction) {
+				for _, op := range in.Operands(nil) {
+					if op == nil || *op == nil {
+						continue
+					}
+					if s, ok := eng.ConstString(*op); ok && (s == "script" || s == "style") {
+						words[s] = true
+					}
+				}
+			})
+			if words["script"] && words["style"] {
+				skips = true
+			}
+		}
+		c.Check(skips, R, eng.FuncName(f)+"#iterative", f.Pos(), "the iterative collector consults the skip test for script and style", "a text collector that walks the nodes itself never tests for script or style elements: their source text is returned as document text")
+	}
+	if m == 0 {
+		c.Undec(R, "htmldoc#collector", token.NoPos, "no text collector (recursive, or iterative over a stack of nodes) found in the HTML reader")
 	}
 }
 
